@@ -16,8 +16,10 @@ import subprocess
 import sys
 
 prop, variant = sys.argv[1], sys.argv[2]
-wt = sys.argv[3] if len(sys.argv) > 3 else "/tmp/wt/%s" % prop
-src = "/tmp/wtout/%s/%s" % (prop, variant)
+wt = sys.argv[3] if len(sys.argv) > 3 else "%s/%s" % (os.environ.get("SEED_WT", "/tmp/wt"), prop)
+src = "%s/%s/%s" % (os.environ.get("SEED_SRC", "/tmp/wtout"), prop, variant)
+# second-round variants are filed as C and D
+label = {"A": "C", "B": "D"}[variant] if os.environ.get("SEED_ROUND") == "2" else variant
 meta_txt = open(os.path.join(src, "meta.txt")).read()
 
 
@@ -60,7 +62,7 @@ sh("git checkout -q -- . && git clean -fdq -e target")
 ok = res.get("clean_demo_passes") and res.get("patch_applies") and res.get("patched_demo_fails") \
     and res.get("suite_failed_with_patch") == 0 and res.get("suite_passed_with_patch", 0) >= 40
 res["confirmed"] = bool(ok)
-dst = "/verif/seeded/%s%s" % (prop, variant)
+dst = "/verif/seeded/%s%s" % (prop, label)
 if ok:
     os.makedirs(dst, exist_ok=True)
     shutil.copy(os.path.join(src, "patch.diff"), dst)
